@@ -280,6 +280,17 @@ def run_case(case, rec, mon=None):
             if rng.random() < 0.1:
                 d = P.Dither(9.0)
                 d.coeff = coeff  # documented public attribute
+            if j % 5 == 2:
+                # the object as a worker process gets it (deep copy, pickle round trip, shallow copy): a Dither with the same coefficient,
+                # whose noise is numpy's process-wide generator's like the original's
+                from ..common import copied, COPY_WAYS
+
+                way = COPY_WAYS[(j // 5) % 3]
+                try:
+                    d = copied(d, way)
+                    rec.count("dither_applied_through_a_%s" % way)
+                except Exception as e:
+                    mon.v("copying (%s) a Dither object raised %r" % (way, e), check="copy_raise", op="dither", coeff=coeff)
             np.random.seed(s)
             y1 = d.apply(x)
             np.random.seed(s)
@@ -405,6 +416,28 @@ def run_case(case, rec, mon=None):
                               shape=[n], coeff=coeff)
                 except Exception as e:
                     rec.count("torch_preemph_integer_tensor_refused")
+            # the module form: a new module, and one that has been through the usual module conversions (.half(), .float(), .double(),
+            # .to(bfloat16), a deep copy) before use - it has no parameters, so these change nothing: the functional form's values
+            import copy as _copy
+
+            conv = [lambda m: m, lambda m: m.half(), lambda m: m.float(), lambda m: m.double(), lambda m: m.to(torch.bfloat16), lambda m: _copy.deepcopy(m),
+                    lambda m: m.half().float()][j % 7]
+            try:
+                mod = conv(T.PyTorchPreemphasize(coeff))
+            except Exception as e:
+                mod = None
+                mon.v("converting a PyTorchPreemphasize module raised %r" % (e,), check="torch_preemph_module", op="torch_preemph", shape=[n], coeff=coeff)
+            for dt in (torch.float64, torch.float32):
+                if mod is None:
+                    break
+                xt = torch.tensor(x, dtype=dt)
+                ym = mod(xt)
+                yf = T.pytorch_preemphasize(xt, coeff)
+                rec.ev()
+                rec.count("torch_preemph_module_calls")
+                if ym.dtype != yf.dtype or ym.shape != yf.shape or not torch.equal(ym, yf):
+                    mon.v("PyTorchPreemphasize module (conversion %d) on a %s signal differs from pytorch_preemphasize with the same coefficient" % (j % 7, dt),
+                          check="torch_preemph_module", op="torch_preemph", shape=[n], coeff=coeff)
             c2 = float(np.exp(rng.uniform(-3, 2)))
             s = int(rng.integers(0, 2 ** 31 - 1))
             xt = torch.tensor(x)
